@@ -43,7 +43,7 @@ func CheckCall(sc *Scenario, v *CallView, rs RuleSet, em int) []Violation {
 		add("stray-event", "", fmt.Sprintf("%s: event kind %d of rule %d on task %d outside any execution", c, e.Kind, e.B, e.Task))
 		break
 	}
-	specs := SpecsFor(c, rs, em)
+	specs := SpecsForView(v, rs, em)
 	noJudge := len(specs) > 0 && specs[0].NoJudge
 	if !panicked {
 		out = append(out, CheckAgainstSpecs(v, specs, rs)...)
